@@ -1,8 +1,8 @@
 """C18, EC / ECDSA half: DEGENERATE COORDINATES and INVALID ISSUER KEYS through the real entry points
 and the composed models (Props/C18Ec.lean proves that the models return on exactly these inputs).
 
-Classes fed (on two named curves in the quick tier — secp256r1 `a = -3`, secp256k1 `a = 0` —, a third
-one in the thorough tier), alone and in batches mixing them with valid / structured keys, duplicates,
+Classes fed (`ec.mul`: all nine named curves on every run; entry points: secp256r1 `a = -3`, secp256k1 `a = 0`
+and one of the seven other named curves, chosen by the seed - in the quick tier with a reduced set of batches), alone and in batches mixing them with valid / structured keys, duplicates,
 the other curve and unknown curve ids; fresh and cached `_table`:
   coordinates 0, p, p+x, 2p-y, 2^600, 2^4000; the point (0,0); (x, p) / (x, 2p) incl. the x with
   3x^2 + a == 0 (mod p) (`Multiply(., 2)` raises ValueError there: op `ec.mul`); off-curve points; a key
@@ -165,7 +165,10 @@ def part_mul(env, rep, rng, cids):
   rep.absorb(b, b.run())
 
 
-def part_keys(env, rep, rng, tier, cids):
+def part_keys(env, rep, rng, tier, cids, lite=()):
+  """`lite`: further curve ids that get every degenerate class ALONE and in one all-classes batch only (quick tier:
+  one of the seven other named curves per run, chosen by the seed - review-2 L8: ids 3, 5, 18, 19 never got
+  degenerate keys)."""
   quick = tier == 'quick'
   b = Batch('ecall.checkec')
   cap, md = 2**16, 2**10
@@ -202,6 +205,15 @@ def part_keys(env, rep, rng, tier, cids):
     sx, sy = env.mul(cid, 77 << 8)
     p = int(env.curves[cid].mod)
     run([(cid, sx + p, sy), (cid, sx, sy + 2 * p), (cid,) + env.mul(cid, (77 << 8) + 5)], 'structured-unreduced')
+  for cid in lite:
+    d = degenerate(env, cid, rng)
+    for nm in d:
+      if nm == 'P' or nm in QUICK_SKIP:
+        continue
+      run([(cid,) + d[nm]], 'alone')
+      b.tags['class:' + (nm if len(nm) < 14 else 'huge')] = b.tags.get('class:' + nm, 0) + 1
+    run([(cid,) + d[nm] for nm in d], 'all-classes-one-curve')
+    b.tags['lite-curve:%d' % cid] = 1
   # C10 / C02 on VALID keys whose neighbours in the batch are degenerate (per-point independence of the
   # searches: the theorems C10.checkWeakECPrivateKey_spec / checkECKeySmallDifference_spec assume that
   # ALL keys of the group are on the curve; here that is searched on the implementation)
@@ -283,23 +295,25 @@ def part_sigs(env, rep, rng, tier, cids):
   t0 = time.time()
   rep.absorb(b, b.run())
   rep.extra.setdefault('c18ec', {})['sigs_model_wall_s'] = round(time.time() - t0, 1)
-  if env.oracle_raised:
-    rep.notes.append('c18ec: batches skipped because a solver raised (outside the model): %r'
-                     % env.oracle_raised[:5])
+  ecall.flush_solver_raises(env, rep, 'c18ec')
 
 
 def correspondence_ec(rep, rng, tier):
   t0 = time.time()
   env = ecall.Env(rng, tier)
-  cids = [2, 6] if tier == 'quick' else [2, 6, rng.choice([4, 17, 1])]
+  # review-2 L8: every named curve gets the degenerate points through Multiply on every run; the entry point
+  # gets them on secp256r1, secp256k1 and one more named curve per run (quick: reduced set of batches)
+  named = [int(cid) for cid, c in env.factory if c is not None]
+  extra = rng.choice([cid for cid in named if cid not in (2, 6)])
+  cids = [2, 6] if tier == 'quick' else [2, 6, extra]
   try:
-    part_mul(env, rep, rng, cids)
+    part_mul(env, rep, rng, named)
     t1 = time.time()
-    part_keys(env, rep, rng, tier, cids)
+    part_keys(env, rep, rng, tier, cids, lite=[extra] if tier == 'quick' else [])
     t2 = time.time()
     part_sigs(env, rep, rng, tier, cids)
     rep.extra.setdefault('c18ec', {}).update(
-        curves=cids, mul_wall_s=round(t1 - t0, 1), keys_wall_s=round(t2 - t1, 1),
+        curves=cids, lite_curve=extra if tier == 'quick' else None, mul_curves=named, mul_wall_s=round(t1 - t0, 1), keys_wall_s=round(t2 - t1, 1),
         sigs_wall_s=round(time.time() - t2, 1), quick_parameters=dict(bound=2**16, max_diff=2**10))
   finally:
     env.restore()
